@@ -94,19 +94,21 @@ pub fn generics(e: &EnumSpec, t_bound: &str, t_inst: &str) -> Generics {
         decl.push("'a".to_string());
         inst.push("'static".to_string());
     }
+    let dflt = e.generic_defaults;
     if e.type_param {
+        let d = if dflt { format!(" = {}", t_inst) } else { String::new() };
         if e.where_clause || t_bound.is_empty() {
-            decl.push("T".to_string());
+            decl.push(format!("T{}", d));
             if !t_bound.is_empty() {
                 wc = format!(" where T: {}", t_bound);
             }
         } else {
-            decl.push(format!("T: {}", t_bound));
+            decl.push(format!("T: {}{}", t_bound, d));
         }
         inst.push(t_inst.to_string());
     }
     if e.const_param {
-        decl.push("const N: usize".to_string());
+        decl.push(if dflt { "const N: usize = 3".to_string() } else { "const N: usize".to_string() });
         inst.push("3".to_string());
     }
     if decl.is_empty() {
